@@ -52,6 +52,9 @@ mod calibration;
 // the entire rTPC volume), a given drift time to a radius and Lorentz angle
 // correction.
 mod drift;
+#[cfg(feature = "verif-hooks")]
+#[doc(hidden)]
+pub use crate::drift::verif_drift;
 // Extract avalanche time and amplitude information from the wire and pad
 // signals.
 mod deconvolution;
@@ -59,6 +62,9 @@ mod deconvolution;
 /// Chronobox.
 pub mod chronobox;
 mod matching;
+#[cfg(feature = "verif-hooks")]
+#[doc(hidden)]
+pub use crate::matching::verif_matching;
 /// Vertex reconstruction.
 pub mod reconstruction;
 
